@@ -7,3 +7,5 @@ import Sessions.Codec.GobProgram
 import Sessions.Spike.Hist
 import Sessions.Proofs.Inv.All
 import Sessions.Proofs.Local.All
+import Sessions.Props
+import Sessions.Proofs.More.All
